@@ -5,6 +5,7 @@ import (
 	"fmt"
 	"math/rand"
 	"os"
+	"path/filepath"
 )
 
 type c17Case struct {
@@ -19,8 +20,12 @@ type c17Case struct {
 
 func (c *c17Case) Exec() {
 	c.Fatal, c.Sweeps = "", nil
-	dir := tmpDir("c17-")
-	defer os.RemoveAll(dir)
+	top := tmpDir("c17-")
+	defer os.RemoveAll(top)
+	// the name of the database directory is part of the configuration: names that look like the library's own
+	// table / compaction directories must work like any other
+	dir := filepath.Join(top, []string{"db", "sstable_store", "sstable_compaction_area", "wal"}[(len(c.Steps)+len(c.Keys))%4])
+	must(os.MkdirAll(dir, 0755))
 	r := &dbRunner{dir: dir}
 	if err := r.open(c.Opts); err != nil {
 		c.Fatal = "open: " + err.Error()
